@@ -863,8 +863,8 @@ func (Area) Gen(r *rand.Rand, tier string, emit func(string)) {
 	// 1c. AdaptedClientConn in detail (conn.go): Stream against controlled connectivity with the halved wait, the
 	// deadline the target is told, Close racing Stream; and pool.New racing itself.
 	for _, l := range []string{
-		"cstream 1200 ready 1", "cstream 1200 ready 0", "cstream 1200 hold1 1", "cstream 1200 hold3 0",
-		"cstream 1200 refuse 0", "cstream 1200 hang 1", "cstream 0 hold1 0", "cstream 0 ready 1",
+		"cstream 1600 ready 1", "cstream 1600 ready 0", "cstream 1600 hold1 1", "cstream 1600 hold3 0",
+		"cstream 1600 refuse 0", "cstream 1600 hang 1", "cstream 0 hold1 0", "cstream 0 ready 1",
 	} {
 		emit(l)
 	}
@@ -873,7 +873,7 @@ func (Area) Gen(r *rand.Rand, tier string, emit func(string)) {
 		nrace = 300
 		for _, l := range []string{
 			"cstream 2000 hold1 0", "cstream 2000 hold3 1", "cstream 2000 refuse 1", "cstream 2000 hang 0",
-			"cstream 800 hold3 1", "cstream 800 refuse 0", "cstream 1600 hold2 1", "cstream 0 hold2 1",
+			"cstream 1200 hold3 1", "cstream 1200 refuse 0", "cstream 2400 hold2 1", "cstream 0 hold2 1",
 		} {
 			emit(l)
 		}
